@@ -34,6 +34,8 @@ BASE_ASSUMPTIONS = [
 def run_unit(desc):
     """executed in a worker process"""
     t0 = time.time()
+    from . import loader as _loader
+    _loader.ALL_FILES_READ.clear()
     try:
         mod = importlib.import_module(f"rxvc.{desc['runner']}")
         rep = mod.run_unit(desc)
@@ -42,6 +44,7 @@ def run_unit(desc):
                "unsupported": None, "crash": traceback.format_exc()[-2000:]}
     rep["seconds"] = round(time.time() - t0, 3)
     rep["desc"] = desc
+    rep["files_read"] = dict(_loader.ALL_FILES_READ)
     return rep
 
 
@@ -246,6 +249,7 @@ class Check:
                 "discharged_by_backend": by_backend,
                 "solver_seconds": round(solver_s, 3),
                 "functions_under_contract": functions,
+                "repo_files_parsed_this_run": {k: v for r in reports for k, v in sorted(r.get("files_read", {}).items())},
                 "units": [{"unit": r["unit"], "kind": r.get("kind"), "obligations": len(r.get("results", [])),
                            "seconds": r.get("seconds"), "out_of_subset": r.get("unsupported")} for r in reports],
                 "samples": samples,
